@@ -1421,7 +1421,16 @@ func (g *cxG) run(name string, repro func() string, f func()) {
 			g.c.Fail("C18.panic."+name, repro(), "panic: %v", r)
 		}
 		if d := time.Since(t0); d > 2*time.Second {
-			g.c.Fail("C18.slow."+name, repro(), "one call took %v", d)
+			// wall time on a shared machine is noisy: a call counts as runaway only if it is slow again
+			// when repeated on its own
+			t1 := time.Now()
+			func() {
+				defer func() { _ = recover() }()
+				f()
+			}()
+			if d2 := time.Since(t1); d2 > 2*time.Second {
+				g.c.Fail("C18.slow."+name, repro(), "one call took %v, and %v when repeated", d, d2)
+			}
 		}
 	}()
 	g.calls++
